@@ -12,10 +12,13 @@ LEVEL = 'proof'
 
 
 def snapshot_items(w):
-    """{abs path: meta} of everything under the item roots plus the ancestor directories."""
+    """{abs path: meta} of everything under the item roots plus the ancestor directories, minus what the item's
+    filter excludes (the histories use only rules that name one item-relative path literally, so the oracle needs no
+    glob semantics: such a rule excludes exactly that path and everything beneath it)."""
     snap = {}
-    for it in w.items:
+    for idx, it in enumerate(w.items):
         real = os.path.realpath(it)
+        excluded = [real.lstrip('/') + '/' + l[2:] for l in (w.filters[idx] or '').split('\n') if l.startswith('- ')]
         parts = real.strip('/').split('/')
         for k in range(1, len(parts)):
             p = '/' + '/'.join(parts[:k])
@@ -23,6 +26,8 @@ def snapshot_items(w):
             snap[p.lstrip('/')] = {'kind': 'dir', 'mode': stat.S_IMODE(st.st_mode), 'uid': st.st_uid, 'gid': st.st_gid,
                                    'mtime': int(st.st_mtime_ns // 10**9), 'ancestor': True}
         for rel, v in store.tree_manifest(real, strip='/').items():
+            if any(rel == x_ or rel.startswith(x_ + '/') for x_ in excluded):
+                continue
             kind, mode, uid, gid, mtime, size, x = v
             d = {'kind': kind, 'uid': uid, 'gid': gid, 'mtime': mtime}
             if kind != 'symlink':
@@ -66,6 +71,13 @@ def one_history(ctx, hid, seed, tier):
     out = []
     snaps = {}     # (group, backup) -> snapshot
     try:
+        if hid % 5 in (1, 3):
+            # a filter naming two item-relative paths literally; the same names also occur at other depths, where
+            # the rules do not apply
+            w.filters[0] = '- skipme\n- nested/inner/drop'
+            for d in ('skipme', 'keep/skipme', 'nested/inner/drop', 'nested/inner/keep/skipme', 'nested/drop', 'drop'):
+                os.makedirs(os.path.join(w.items[0], d), exist_ok=True)
+                w.write(os.path.join(w.items[0], d, 'inside'), 700 + len(d), 40 + len(d))
         for _ in range(rng.randint(3, 10)):
             w.edit()
         for k in range(rng.randint(2, 5 if tier == 'quick' else 8)):
@@ -203,7 +215,7 @@ def check(ctx):
     ctx.coverage.update({
         'evaluations': len(cases),
         'distinct_nontrivial': len({(c['history'], c['group'], c['backup'], c['after_run']) for c in cases if c['after_run'] >= 1}),
-        'rule': 'random histories (add/modify/touch/rename/delete/duplicate/revive/mkdir/symlink/chmod, extreme modes/owners/mtimes incl. pre-1970 and 2^33, hard links, sizes 0..70000 around 4096, unicode/space/120-byte names) interleaved with backups under limits 1..3 x 1..3 changing between runs; '
+        'rule': 'random histories (add/modify/touch/rename/delete/duplicate/revive/mkdir/symlink/chmod, extreme modes/owners/mtimes incl. pre-1970 and 2^33, hard links, sizes 0..70000 around 4096, unicode/space/120-byte names) interleaved with backups under limits 1..3 x 1..3 changing between runs; two in five histories configure a filter naming item-relative paths literally, the same names recurring at other depths; '
                 'after every run every retained backup is restored; one evaluation = one restore; non-trivial = a restore made after at least one later run (rotation/deletion may have happened)',
         'samples': [{k: cases[0][k] for k in ('history', 'after_run', 'group', 'backup', 'rc')}],
         'correspondence': st, 'selfcontained_instances': sc_instances, 'selfcontained_hypothesis_failures': sc_bad,
